@@ -270,7 +270,7 @@ def check(run):
     if ferr:
         # never a silent default: a failing translator is a broken correspondence; the model comparison below then
         # uses the variant recorded by the last successful translation and says so
-        run.add_corr_break("G: switch translator: " + ferr)
+        run.add_corr_break("G: switch translator: " + ferr, shape=True)
         fx = current_switches()
         fdesc = ["TRANSLATION FAILED (%s); variant of the last successful translation used: %s" % (ferr, fx)]
         if fx is None:
